@@ -169,6 +169,9 @@ func VerifyFunc(w *World, cs *ContractSet, ct *Contract) *FuncResult {
 					e.trusted("assumed clause of " + shortKey(ct.Key) + ": " + oneLine(cl.Expr))
 					continue
 				}
+				if cl.Label == "onpanic" {
+					continue
+				}
 				g, ok := e.evalSpec(tr.st, ct.PkgPath, cl.GenFn, all, entry)
 				if !ok {
 					continue
